@@ -183,6 +183,7 @@ func cmdCheck(args []string) int {
 	}
 	var dis []Disagreement
 	seen := map[string]bool{}
+	inputDistribution(cx, cases)
 	for _, cr := range runs {
 		cx.Stats.Cases++
 		for _, o := range cr.Real {
@@ -642,4 +643,88 @@ func shrinkItems(items []SItem) [][]SItem {
 		out = out[:40]
 	}
 	return out
+}
+
+// inputDistribution: what the generated recipes consist of (evidence: which operations, item
+// kinds, constructs, sizes and settings the correspondence of this run actually exercised).
+func inputDistribution(cx *CheckCtx, cases []*Case) {
+	opNames := map[OpKind]string{OpFile: "file", OpSet: "set", OpHintName: "ImportName", OpHintAlias: "ImportAlias", OpHintNames: "ImportNames", OpAnon: "Anon",
+		OpHeader: "HeaderComment", OpPkgComment: "PackageComment", OpCgo: "CgoPreamble", OpStmt: "statement", OpApp: "append-to-statement", OpClone: "Clone",
+		OpFAdd: "File.Add", OpFNew: "File.<construct>", OpRender: "File.Render", OpFrag: "Statement.RenderWithFile", OpGFrag: "Group.RenderWithFile", OpLower: "toLower-sample"}
+	bucket := func(n int) string {
+		switch {
+		case n == 0:
+			return "0"
+		case n <= 3:
+			return "1-3"
+		case n <= 10:
+			return "4-10"
+		case n <= 30:
+			return "11-30"
+		case n <= 100:
+			return "31-100"
+		}
+		return ">100"
+	}
+	h := func(k string) { cx.hist(k) }
+	for _, c := range cases {
+		if c.ModelText != "" {
+			h("case:syntax-term(three-way)")
+		}
+		items, renders := 0, 0
+		for _, o := range c.Ops {
+			h("op:" + opNames[o.Kind])
+			switch {
+			case o.Kind == OpSet:
+				h("setting:" + o.Str[0])
+			case o.Kind == OpFile:
+				h("file-ctor:" + o.Str[0])
+			case o.Kind == OpHintAlias && o.Str[1] == ".":
+				h("hint:dot-import")
+			case o.IsRender():
+				renders++
+			}
+		}
+		walkCase(c, &termVisitor{
+			item: func(it SItem) {
+				items++
+				switch x := it.(type) {
+				case Tok:
+					h("item:token")
+				case Qual:
+					h("item:Qual")
+				case Lit:
+					h("item:Lit/" + x.Type)
+				case *Grp:
+					h("item:group")
+					h("construct:" + x.Api)
+					h("arity:" + bucket(len(x.Args)))
+				case *GrpFunc:
+					h("item:group-callback")
+					h("construct:" + x.Api + "Func")
+				case *Custom, *CustomFunc:
+					h("item:Custom")
+				case Tag:
+					h("item:Tag")
+				case Comment:
+					h("item:Comment")
+				case *AddItems:
+					h("item:Add")
+				}
+			},
+			arg: func(a Arg) {
+				switch x := a.(type) {
+				case Nil, TypedNil:
+					h("arg:nil")
+				case Ref:
+					h("arg:shared-statement-pointer")
+				case *Dict:
+					h("arg:Dict")
+					h("dict-pairs:" + bucket(len(x.Pairs)))
+				}
+			},
+		})
+		h("items-per-case:" + bucket(items))
+		h("renders-per-case:" + bucket(renders))
+	}
 }
